@@ -6,6 +6,9 @@ import Sop.Driver.Util
     case n <label> c0                 the item holds content c0; every cache is cold
     read p nocheck|forreading|forwriting   -> <content|!> ok|err
     write p c                              -> ok|err
+    abort p c                              -> <content|!> rb      read + update to c + ROLLBACK: the cache footprint
+                                                                  of `read p nocheck` (the node is fetched, nothing is
+                                                                  committed), the update reaches no cache
     dropmru p | droph p | flushl2          -> ok
 
     case n si <label>                 store-info cache cases (Sop.Model.StoreInfoCache): no store exists
@@ -39,6 +42,13 @@ def step (s : St) (ws : List String) : St × String :=
   match ws with
   | ["read", p, m] => match p.toNat?, modeOf m with | some p, some m => go (.read p m) | _, _ => (s, "bad-op")
   | ["write", p, c] => match p.toNat?, c.toNat? with | some p, some c => go (.write p c) | _, _ => (s, "bad-op")
+  | ["abort", p, _] =>
+    match p.toNat? with
+    | some p =>
+      match s.apply (.read p .noCheck) with
+      | (s', .read c _) => (s', s!"{match c with | some c => toString c | none => "!"} rb")
+      | (s', _) => (s', "bad-op")
+    | none => (s, "bad-op")
   | ["dropmru", p] => match p.toNat? with | some p => go (.dropMru p) | none => (s, "bad-op")
   | ["droph", p] => match p.toNat? with | some p => go (.dropHandles p) | none => (s, "bad-op")
   | ["flushl2"] => go .flushL2
